@@ -10,7 +10,7 @@ def components():
 
 
 def oracles_():
-    return [comps_dflt.ValidateIdemC07()]
+    return [comps_dflt.ValidateIdemC07(), comps_dflt.WhenDefaults(), comps_dflt.WhenDefaultsModule()]
 
 
 TRUSTED = [
@@ -19,6 +19,8 @@ TRUSTED = [
     "sids in lys_getnext order and the choice / case chains), tools/yanggen.py + tools/props/comps_dflt.py (modules, "
     "instances, edit histories; flattening of libyang's diff tree into per-node create / delete lines; reading the printed "
     "XML with expat), impl/lyx.c (val, implicit, dump, print, newpath, chgpath, freepath, freen, rt commands)",
+    "oracles when-defaults / when-defaults-module: comps_dflt.WhenRef (python reference: module family, evaluation of the when "
+    "conditions, LYD_WHEN_TRUE bookkeeping), impl/lyx.c and impl/t_valid.c (mod, newpath, freepath, parse, val [m], dump)",
 ]
 
 ASSUMPTIONS = [
@@ -37,6 +39,9 @@ ASSUMPTIONS = [
     "dflt-leaflist-partial, vdiff-np-container, wd-leaflist-partial-default are such trees)",
     "schemas: chc_okb / schema_okb / sids_uniqb / keys_plainb (checked on every generated schema, field K); one module, no when / must / unique / "
     "leafref, no opaque nodes; LYD_VALIDATE_PRESENT only (an empty tree is not validated)",
+    "oracle when-defaults: the expected trees come from comps_dflt.WhenRef, a python reference for one family of modules "
+    "(it tracks which nodes carry LYD_WHEN_TRUE: every conditional node present after a successful validation, and a node "
+    "lyd_new_path turned from default into explicit in place)",
 ]
 
 MANIFEST = {
@@ -78,13 +83,29 @@ MANIFEST = {
             "document order, read with independent readers (expat; python json incl. the RFC 7952 metadata arrays of leaf-lists) - "
             "the printed nodes + default tags must be identical; the model also evaluates the theorem hypotheses and conclusions (normal form reached, change list "
             "replays to the tree after, flags consistent and sound, canonical input) on every one of these trees. The API oracle "
-            "validate-idem checks the same laws through lyd_diff_apply_all.",
+            "validate-idem checks the same laws through lyd_diff_apply_all. `when` is covered at ORACLE level only (not in the "
+            "Coq model): oracle when-defaults generates modules whose default leaves, NP / presence containers, default "
+            "leaf-lists, lists, choices, cases (incl. the default case and a nested choice), uses and augments carry when "
+            "conditions over sibling leaves (../sw = 'on', count(../ll) > 1, not(../x); one when reading another conditional "
+            "node), runs histories validate -> flip a controlling leaf -> validate -> flip back -> validate with explicit "
+            "nodes created / freed in between (lyd_new_path + lyd_validate_all with diff, lyd_parse_data with validation; "
+            "oracle when-defaults-module: the same histories with lyd_validate_module) "
+            "and compares every validated tree with a python reference (comps_dflt.WhenRef) that evaluates the conditions on "
+            "its own record of the explicit content: defaults exactly where own and inherited when hold, explicit nodes under "
+            "a false when rejected - deleted iff LYD_WHEN_TRUE had been set -, diff applied to the tree before = tree after, "
+            "second validation changes / reports nothing.",
     "note": "PARTIAL. Not proved: the normal form for inputs outside Implicit.editedb (nodes that are new AND default, "
             "incomplete default leaf-lists = deviation dflt-leaflist-partial; checked at run time on every generated case), "
             "that the second validation does not fail, exactness of the change list "
             "(checked at run time by replaying the model's change list; false for vdiff-np-container; libyang's own diff "
             "additionally fails with LY_EINVAL in finding vdiff-np-recreate and is wrong for duplicate-instance lists, "
-            "vdiff-dupinst). Not modelled: when / must / unique / leafref, several modules (with data of "
+            "vdiff-dupinst). when: no theorem - the Coq model has no when; the statement 'defaults exactly where the when holds' "
+            "is checked by the oracle when-defaults against a python reference on a fixed family of modules (XPath limited to "
+            "three condition shapes; lyd_validate_module is driven through impl/t_valid.c, which returns no change set); two deviations "
+            "found there are listed (when-stale-dependency, when-autodel-default-case) - they are also why an abstract "
+            "when_ok : sid -> forest -> bool threaded through the Coq model was not attempted: libyang's result depends on the "
+            "ORDER in which conditions are resolved and on LYD_WHEN_TRUE flags of earlier validations, so 'the' forest the "
+            "condition is evaluated on is not a function of the input tree. Not modelled: must / unique / leafref, several modules (with data of "
             "another module in front libyang inserts a new top-level default node before older siblings of its own module - seen "
             "once, outside Tree.v), LYD_VALIDATE_NO_STATE / NO_DEFAULTS / MULTI_ERROR, the state of the tree after a failed "
             "validation, LYD_PRINT_KEEPEMPTYCONT in the theorem (tied by the correspondence run only), the LYB printer.",
